@@ -1562,6 +1562,8 @@ def table_hdr_cell_fn(ctx: "Wtp", token: str) -> None:
         if node.kind in (
             NodeKind.HTML,
             NodeKind.TEMPLATE,
+            NodeKind.TEMPLATE_ARG,
+            NodeKind.PARSER_FN,
             NodeKind.LINK,
             NodeKind.URL,
         ):
